@@ -83,6 +83,7 @@ class Engine:
         self.solver_time = 0.0
         self.truncated = False
         self.ncalls = 0
+        self.n_branch_unknown = 0   # branch feasibility queries answered `unknown`
         self.max_branch_calls = 200000
         self.deadline = None        # wall-clock limit of one exploration (time.time() value); exceeding it truncates (reported as cut)
         self._fresh = 0
@@ -134,8 +135,15 @@ class Engine:
             return d
         if self.pos >= self.max_decisions:
             raise Abort("cut")
-        can_t = self.check(cond) == z3.sat
-        can_f = self.check(z3.Not(cond)) == z3.sat
+        rt = self.check(cond)
+        rf = self.check(z3.Not(cond))
+        can_t, can_f = rt == z3.sat, rf == z3.sat
+        undecided = rt == z3.unknown or rf == z3.unknown
+        if undecided:
+            # a side whose feasibility the solver could not decide is not explored: the exploration is incomplete
+            # (reported as cut by every harness through `truncated`), never silently treated as infeasible
+            self.n_branch_unknown += 1
+            self.truncated = True
         if can_t and can_f:
             self.todo.append(self.prefix[: self.pos] + [False])
             d = True
@@ -143,6 +151,8 @@ class Engine:
             d = True
         elif can_f:
             d = False
+        elif undecided:
+            raise Abort("cut")
         else:
             raise Abort("infeasible")
         self.prefix.append(d)
@@ -216,8 +226,8 @@ class Engine:
                 if out[0] == "timeout":
                     # the solver may have been interrupted in the middle of a call: start from a fresh one
                     self._fresh_solver()
-                elif not dead and self._assume_dirty and self.check() != z3.sat:
-                    dead = True  # an assumption contradicted the path after its last decision
+                elif not dead and self._assume_dirty and self.check() == z3.unsat:
+                    dead = True  # an assumption contradicted the path after its last decision (`unknown` keeps the path: its property query decides)
                 if not dead:
                     results.append(Path(list(self.pc), out[0], out[1], list(self.prefix[: self.pos]), self.nassumed))
             finally:
@@ -256,7 +266,7 @@ class Engine:
         return "unknown", None
 
     def stats(self):
-        return dict(feasibility_queries=self.nqueries, property_queries=self.nprove,
+        return dict(feasibility_queries=self.nqueries, property_queries=self.nprove, branch_unknown=self.n_branch_unknown,
                     unsat=self.n_unsat, sat=self.n_sat, unknown=self.n_unknown,
                     solver_time_s=round(self.solver_time, 4))
 
@@ -619,7 +629,12 @@ def concretize(e, limit=48):
         if eng.pos < len(eng.prefix) and key in eng.conc:
             v = eng.conc[key]
         else:
-            if eng.check() != z3.sat:
+            r = eng.check()
+            if r == z3.unknown:
+                eng.n_branch_unknown += 1
+                eng.truncated = True
+                raise Abort("cut")
+            if r != z3.sat:
                 raise Abort("infeasible")
             v = eng.solver.model().eval(e, model_completion=True).as_long()
             eng.conc[key] = v
